@@ -55,52 +55,7 @@ func checkC15(c *Ctx) {
 	c.Check(seenInit >= 7, "C15-R1", "positive-control(init writes tables)", token.NoPos, fmt.Sprintf("the detector sees %d table writes inside init", seenInit), "the global-write detector does not see the init-time table writes (it would pass vacuously)")
 
 	// ---- R2 raw buffers are never written
-	_ = P.Field("rtcm/handler", "Message", "RawData")
-	nst := 0
-	for fn := range reach {
-		eachInstr(fn, func(ins ssa.Instruction) {
-			var target ssa.Value
-			switch x := ins.(type) {
-			case *ssa.Store:
-				if ia, ok := x.Addr.(*ssa.IndexAddr); ok {
-					target = ia.X
-				}
-			case *ssa.Call:
-				if b, ok := x.Call.Value.(*ssa.Builtin); ok && b.Name() == "copy" {
-					target = sliceBase(x.Call.Args[0])
-				}
-			}
-			if target == nil {
-				return
-			}
-			sl, ok := target.Type().Underlying().(*types.Slice)
-			if !ok {
-				return
-			}
-			if b, ok := sl.Elem().Underlying().(*types.Basic); !ok || b.Kind() != types.Byte {
-				return
-			}
-			r := root(sliceBase(target))
-			if isFreshSlice(r) {
-				return // a buffer allocated here (Copy, append scratch)
-			}
-			if _, isMk := r.(*ssa.MakeSlice); isMk {
-				return
-			}
-			if al, ok := r.(*ssa.Alloc); ok && !al.Heap {
-				return
-			}
-			if al, ok := sliceBase(target).(*ssa.Alloc); ok {
-				_ = al
-				return // variadic scratch array
-			}
-			nst++
-			c.Fail("C15-R2", "raw-buffer-write("+P.FnKey(fn)+")", ins.Pos(), "refuted", "decode/display code stores into a byte buffer it did not allocate (a frame's raw bytes are shared by every copy of the message)")
-		})
-	}
-	if nst == 0 {
-		c.OK("C15-R2", "raw-buffers-read-only", token.NoPos, fmt.Sprintf("no store or copy into a non-local byte buffer in the %d functions reachable from decoding and display", len(reach)))
-	}
+	ruleRawBuffersReadOnly(c, "C15-R2", reach)
 	// ---- R3 display stores
 	M := P.Named("rtcm/handler", "Message")
 	dispRoots := []*ssa.Function{P.Func("rtcm/handler", "(*Message).String"), P.Func("rtcm/handler", "PrepareForDisplay"), P.Func("rtcm/handler", "Analyse")}
@@ -232,6 +187,55 @@ func checkC15(c *Ctx) {
 			"Message.Copy shares storage with the original (the decoded form or the raw bytes): a copy's text depends on what was done to the original, and consumers can change each other's view")
 	} else {
 		c.Unresolved("C15-R5", "rtcm/handler.(*Message).Copy")
+	}
+	// ---- R3 (continued) a message carries its own data: no field of Message refers to the Handler (a
+	// message that asks the handler for part of its text at display time shows the handler's state of
+	// that moment, not of the moment it was decoded)
+	if M, H := P.Named("rtcm/handler", "Message"), P.Named("rtcm/handler", "Handler"); M != nil && H != nil {
+		var reaches func(t types.Type, seen map[types.Type]bool) bool
+		reaches = func(t types.Type, seen map[types.Type]bool) bool {
+			if seen[t] {
+				return false
+			}
+			seen[t] = true
+			if types.Identical(t, H) {
+				return true
+			}
+			switch u := t.Underlying().(type) {
+			case *types.Pointer:
+				return reaches(u.Elem(), seen)
+			case *types.Slice:
+				return reaches(u.Elem(), seen)
+			case *types.Array:
+				return reaches(u.Elem(), seen)
+			case *types.Map:
+				return reaches(u.Key(), seen) || reaches(u.Elem(), seen)
+			case *types.Chan:
+				return reaches(u.Elem(), seen)
+			case *types.Struct:
+				for i := 0; i < u.NumFields(); i++ {
+					if reaches(u.Field(i).Type(), seen) {
+						return true
+					}
+				}
+			case *types.Signature:
+				return true // a stored function can capture anything
+			}
+			return false
+		}
+		ms := M.Underlying().(*types.Struct)
+		okM := true
+		for i := 0; i < ms.NumFields(); i++ {
+			if reaches(ms.Field(i).Type(), map[types.Type]bool{}) {
+				okM = false
+				c.Fail("C15-R3", "message-self-contained("+ms.Field(i).Name()+")", ms.Field(i).Pos(), "refuted", "Message."+ms.Field(i).Name()+" can refer to the Handler (or holds a function): what the message displays can then depend on the handler's state at display time")
+			}
+		}
+		if okM {
+			c.OK("C15-R3", "message-self-contained", M.Obj().Pos(), "no field of Message can refer to the Handler")
+		}
+	} else {
+		c.Unresolved("C15-R3", "rtcm/handler.Message / Handler")
 	}
 	// ---- R7 whether a time conversion fails depends on the timestamp alone, never on the handler's
 	// history: the error text of a message (and with it whether its body is displayed at all) is
@@ -589,5 +593,67 @@ func ruleTimeErrorsHistoryFree(c *Ctx, rule string) {
 				check(g, sp, n+"→"+g.Name())
 			}
 		})
+	}
+}
+
+// ruleRawBuffersReadOnly (C15-R2, C01-R3): no function of the set stores, copies or appends in place into
+// a byte buffer it did not allocate itself: a frame's bytes are what was checked and what is delivered,
+// and every copy of the message shares them.
+func ruleRawBuffersReadOnly(c *Ctx, rule string, fns map[*ssa.Function]bool) {
+	P := c.P
+	nst := 0
+	for fn := range fns {
+		eachInstr(fn, func(ins ssa.Instruction) {
+			var target ssa.Value
+			what := "stores into"
+			switch x := ins.(type) {
+			case *ssa.Store:
+				if ia, ok := x.Addr.(*ssa.IndexAddr); ok {
+					target = ia.X
+				}
+			case *ssa.Call:
+				if b, ok := x.Call.Value.(*ssa.Builtin); ok && b.Name() == "copy" {
+					target = sliceBase(x.Call.Args[0])
+					what = "copies into"
+				}
+				// append(buf[:k], ...): writes over buf[k:] when the capacity allows
+				if b, ok := x.Call.Value.(*ssa.Builtin); ok && b.Name() == "append" && len(x.Call.Args) == 2 {
+					if sl, ok := x.Call.Args[0].(*ssa.Slice); ok && sl.High != nil {
+						if _, isArr := sl.X.Type().Underlying().(*types.Pointer); !isArr {
+							target = sl.X
+							what = "appends in place to a truncated view of"
+						}
+					}
+				}
+			}
+			if target == nil {
+				return
+			}
+			sl, ok := target.Type().Underlying().(*types.Slice)
+			if !ok {
+				return
+			}
+			if b, ok := sl.Elem().Underlying().(*types.Basic); !ok || b.Kind() != types.Byte {
+				return
+			}
+			r := root(sliceBase(target))
+			if isFreshSlice(r) {
+				return // a buffer allocated here (Copy, append scratch)
+			}
+			if _, isMk := r.(*ssa.MakeSlice); isMk {
+				return
+			}
+			if al, ok := r.(*ssa.Alloc); ok && !al.Heap {
+				return
+			}
+			if _, ok := sliceBase(target).(*ssa.Alloc); ok {
+				return // variadic scratch array
+			}
+			nst++
+			c.Fail(rule, "raw-buffer-write("+P.FnKey(fn)+")", ins.Pos(), "refuted", "decode/display code "+what+" a byte buffer it did not allocate (a frame's raw bytes are shared by every copy of the message, and they are the bytes the CRC was checked over)")
+		})
+	}
+	if nst == 0 {
+		c.OK(rule, "raw-buffers-read-only", token.NoPos, fmt.Sprintf("no store, copy or in-place append into a non-local byte buffer in %d functions", len(fns)))
 	}
 }
